@@ -224,7 +224,10 @@ func firstSeg(items []Item, it Item) bool { return firstItem(items, it) }
 // C13: N goroutines over one evaluator and one set of flag/segment values; meant to run in a -race build.
 func cmdRace(prop string, n int, seed uint64, secs int, out string) (*Result, error) {
 	prof := profileFor(prop)
-	prof.PPrereq, prof.PSegmentOp, prof.PBigSeg, prof.MinFlags, prof.MinSegs, prof.PInvalidCtx = 0.6, 0.5, 0.4, 3, 2, 0.02
+	prof.PPrereq, prof.PSegmentOp, prof.PBigSeg, prof.MinFlags, prof.MinSegs, prof.PInvalidCtx = 0.6, 0.6, 0.3, 3, 3, 0.02
+	prof.PForm0 = 0.6 // hand-built values without precomputed data: where lazily filled caches would be written
+	prof.Ops = []string{"matches", "matches", "before", "after", "semVerEqual", "semVerLessThan", "in", "in", "startsWith", "lessThan"}
+	prof.PRollout, prof.MaxRules, prof.MaxClauses = 0.5, 3, 2
 	root := NewRng(seed ^ hashSeed(prop+"race"))
 	res := &Result{Prop: prop, Mode: "race", Seed: seed, Distribution: map[string]int{},
 		Rule: "worlds of one shared evaluator + one shared store (both precomputed and plain forms) evaluated by 8 goroutines at once over overlapping (flag, context) jobs, each call with its own recorder; results and per-call events compared with the sequential baseline; run under the Go race detector when the binary was built with -race; non-trivial = job that reaches a prerequisite, segment or big segment; distinct jobs counted"}
